@@ -325,7 +325,61 @@ func (rd *vcStreamReader) Step(limit int) (int, error) {
 	}
 	var err error
 	consumed := 0
-	switch r.intn(14) {
+	switch r.intn(15) {
+	case 14:
+		// Peek across nodes, consume a little through every consuming call in turn, Peek again
+		// (shorter than the first): the second Peek must start at the new position
+		big := vcMinInt(limit, r.rng(8200, 40000))
+		var p []byte
+		p, err = rd.Rd.Peek(big)
+		if err != nil {
+			break
+		}
+		rd.verify("Peek", p)
+		k := vcMinInt(r.rng(1, 64), big-1)
+		switch r.intn(4) {
+		case 0:
+			if rd.IO != nil {
+				q := make([]byte, k)
+				var m int
+				m, err = rd.IO.Read(q)
+				if m > 0 {
+					rd.verify("Read", q[:m])
+					consumed = m
+				}
+				break
+			}
+			fallthrough
+		case 1:
+			err = rd.Rd.Skip(k)
+			if err == nil {
+				consumed = k
+			}
+		case 2:
+			var q []byte
+			q, err = rd.Rd.ReadBinary(k)
+			if err == nil {
+				rd.verify("ReadBinary", q)
+				consumed = k
+			}
+		default:
+			var q []byte
+			q, err = rd.Rd.Next(k)
+			if err == nil {
+				rd.verify("Next", q)
+				consumed = k
+			}
+		}
+		rd.Pos += uint64(consumed)
+		if err == nil && big-consumed > 0 {
+			var p2 []byte
+			p2, err = rd.Rd.Peek(big - consumed)
+			if err == nil {
+				rd.verify("Peek(after partial consume)", p2)
+			}
+		}
+		rd.Pos -= uint64(consumed) // added again below
+		rd.note("Peek+consume+Peek")
 	case 12, 13:
 		// Peek alone: nothing is consumed, so a later read of any kind (and a later Peek) must
 		// still start at the same position - a stale Peek cache shows up at the first byte
